@@ -145,6 +145,9 @@ func newPrinter() *pp {
 	p.erroring = false
 	p.wrapErrs = false
 	p.fmt.init(&p.buf)
+	if verifOn {
+		verifPool("get", p)
+	}
 	return p
 }
 
@@ -157,6 +160,9 @@ func (p *pp) free() {
 	//
 	// See https://golang.org/issue/23199
 	if p.buf.Cap() > 64<<10 {
+		if verifOn {
+			verifPool("drop", p)
+		}
 		return
 	}
 
@@ -164,6 +170,9 @@ func (p *pp) free() {
 	p.arg = nil
 	p.value = reflect.Value{}
 	p.wrappedErr = nil
+	if verifOn {
+		verifPool("put", p)
+	}
 	ppFree.Put(p)
 }
 
